@@ -17,10 +17,12 @@ Strings == {S(f) : f \in UNION {[1..n -> Alpha] : n \in 0..(IF Deep THEN 3 ELSE 
 Nines34 == [i \in 1..34 |-> 9]
 Nums == { N(0, <<>>, 0), N(0, <<1>>, 0), N(1, <<1>>, 0), N(0, <<1, 2, 5>>, 0 - 1), N(1, <<1, 5>>, 0 - 8),
           N(0, <<1>>, 21), N(0, Nines34, 0), N(0, <<1>>, 0 - 20), N(1, <<9, 9>>, 0 - 2), N(0, <<1, 5>>, 0 - 1),
-          N(0, <<7>>, 0 - 7), N(1, <<1, 2, 3, 4, 5, 6, 7, 8, 9>>, 3) }
+          N(0, <<7>>, 0 - 7), N(1, <<1, 2, 3, 4, 5, 6, 7, 8, 9>>, 3),
+          \* numbers written with fraction digits that are all zero (10.0, -200.00, 1500.00, 0.0): the scale is kept
+          N(0, <<1, 0, 0>>, 0 - 1), N(1, <<2, 0, 0, 0, 0>>, 0 - 2), N(0, <<1, 5, 0, 0, 0, 0>>, 0 - 2), N(0, <<0, 0>>, 0 - 1), N(0, <<3, 0>>, 0 - 1) }
 Scalars == Strings \cup Nums \cup {[k |-> "null"], [k |-> "bool", b |-> TRUE], [k |-> "bool", b |-> FALSE]}
 
-Pool == { S(<<>>), S(<<34>>), S(<<92, 97>>), N(1, <<1, 5>>, 0 - 8), N(0, <<1>>, 0), [k |-> "null"], [k |-> "bool", b |-> TRUE] }
+Pool == { S(<<>>), S(<<34>>), S(<<92, 97>>), N(1, <<1, 5>>, 0 - 8), N(0, <<1>>, 0), N(0, <<1, 0, 0>>, 0 - 1), [k |-> "null"], [k |-> "bool", b |-> TRUE] }
 Keys == { <<97>>, <<107, 34, 113>>, <<98, 92>>, <<233>>, <<107, 32, 50>> }       \* a  k"q  b\  e-acute  "k 2"
 
 Lists1 == {L(<<>>)} \cup {L(<<a>>) : a \in Pool} \cup {L(<<a, b>>) : a \in Pool, b \in Pool}
